@@ -1982,6 +1982,10 @@ class Interp:
             for suffix, mark in ctx.mark_calls.items():
                 if callee["dpath"].endswith(suffix):
                     st.ghost[("visited", mark)] = const_int(1)
+        if getattr(ctx, "arg_log", None) is not None:
+            for suffix, log in ctx.arg_log.items():
+                if callee["dpath"].endswith(suffix):
+                    log.append((inst["dpath"], [st.get_iv(a) if is_int(a) else None for a in args]))
         ctx.callstack.append((inst, span))
         try:
             res = None
